@@ -29,6 +29,7 @@ def run_scenarios(hexe, drv_exe, scenarios, sc, tag="s", env=None, timeout=60, w
             res.update(status="DRIVER", model_line=(out2 + err2)[-400:], mon_line="")
             return res
         res["model_line"], res["mon_line"] = lines[0], lines[1]
+        res["extra_lines"] = lines[2:]
         if rc not in (0, 4):
             res["status"] = "CRASH"
             res["mon_line"] += " harness rc=%s %s" % (rc, err[-300:])
@@ -85,6 +86,19 @@ def history_stage(rep, proof_ok, sc, lib, prop, drv, harness_src, gen, tier, see
                 nev += int(r["model_line"].split("events=")[1].split()[0])
             except Exception:
                 pass
+    # counters the driver prints after its verdict lines (e.g. "STOPS decisions=3 within_hypotheses=2 ...")
+    extra = {}
+    for r in res:
+        for l in r.get("extra_lines", []):
+            w = l.split()
+            for kv in w[1:]:
+                if "=" in kv:
+                    k, v = kv.split("=", 1)
+                    try:
+                        extra[w[0].lower() + "_" + k] = extra.get(w[0].lower() + "_" + k, 0) + int(v)
+                    except ValueError:
+                        pass
+    stats.update(extra)
     by = {}
     for r in res:
         by.setdefault(r["status"], []).append(r)
